@@ -7,6 +7,13 @@ use std::sync::Mutex;
 pub static LOG: Mutex<Vec<String>> = Mutex::new(Vec::new());
 
 pub fn log(s: String) {
+    // entries made on a thread other than "main" carry the thread's name
+    let t = std::thread::current();
+    let s = match t.name() {
+        Some("main") => s,
+        Some(n) => format!("{}@{}", n, s),
+        None => format!("?@{}", s),
+    };
     LOG.lock().unwrap_or_else(|e| e.into_inner()).push(s);
 }
 pub fn take_log() -> Vec<String> {
